@@ -17,7 +17,6 @@ package dmap
 import (
 	"context"
 	"errors"
-	"strings"
 	"sync"
 	"time"
 
@@ -93,7 +92,7 @@ func (f *fragment) Move(part *partitions.Partition, name string, owners []discov
 	fp := &fragmentPack{
 		PartID:  part.ID(),
 		Kind:    part.Kind(),
-		Name:    strings.TrimPrefix(name, "dmap."),
+		Name:    name,
 		Payload: payload,
 	}
 	value, err := msgpack.Marshal(fp)
